@@ -460,6 +460,29 @@ def builtin(ex, st, fr, name, a, x, work):
         txt = ('%.*f' % (prec, val)) if ff == 0x4 else ('%.*e' % (prec, val)) if ff == 0x100 else ('%.*g' % (prec, val))
         if flags & 0x400 and '.' not in txt and ff == 0: txt += '.'      # showpoint (rarely set)
         insert_padded(ex, st, a[0], mf, list(txt.encode())); return a[0]
+    if name in ('gmtime', 'gmtime_r', 'timegm'):
+        S.add(name + ' on a concrete time -> proleptic Gregorian UTC calendar (Python calendar/time)')
+        import calendar as _cal, time as _tm
+        if name == 'timegm':
+            f = [ex.load_val(st, Ptr(a[0].obj, a[0].off + 4 * k), I32) for k in range(6)]
+            if not all(isc(v) for v in f): raise Violation('unsupported', 'timegm of a symbolic date', st)
+            f = [v - (1 << 32) if v >> 31 else v for v in f]
+            return _cal.timegm((f[5] + 1900, f[4] + 1, f[3], f[2], f[1], f[0], 0, 0, 0)) & ((1 << 64) - 1)
+        t = ex.load_val(st, a[0], I64)
+        if not isc(t): raise Violation('unsupported', name + ' of a symbolic time', st)
+        if t >> 63: t -= 1 << 64
+        g = _tm.gmtime(t)
+        if name == 'gmtime_r': out = a[1]
+        else:
+            o = getattr(st, 'tm_obj', None)
+            if o is None or o not in st.objs: o = ex.new_obj(st, 56, 'static struct tm', kind='zero'); st.tm_obj = o
+            out = Ptr(o, 0)
+        vals = [g.tm_sec, g.tm_min, g.tm_hour, g.tm_mday, g.tm_mon - 1, g.tm_year - 1900, (g.tm_wday + 1) % 7, g.tm_yday - 1, 0]
+        for k, v in enumerate(vals): ex.store_val(st, Ptr(out.obj, out.off + 4 * k), I32, v & 0xffffffff)
+        ex.store_val(st, Ptr(out.obj, out.off + 40), I64, 0); ex.store_val(st, Ptr(out.obj, out.off + 48), PTR(I8), NULL)
+        return out
+    if name in ('nanosleep', 'usleep', 'sleep', 'sched_yield'):
+        S.add('sleep functions -> return at once (time is not modelled)'); return 0
     if name == 'fnmatch':
         S.add('fnmatch(3) on concrete strings -> Python fnmatch.fnmatchcase (flags 0)')
         import fnmatch as _fn
